@@ -18,6 +18,10 @@
     class decisions (`index_scalar_needs_integers`, `reduction_scalar_iff`, `squeeze_strict`,
     `C16_view_partial`, `getitem_ints_class`, `ufunc_wrap_class_iff_shape` over all methods,
     `list_coercion_values_converted`).
+  * §7b: `_coerce_iterable_units` is ALSO executed as a program regenerated from the live source
+    (`UnytModel/C16CoerceProg.lean`, `Generated/C16Coerce.lean`); `coerceProg_refines` relates every
+    program meeting the decidable obligation `progOk` to the hand model `coerceList`, and
+    `C16_coerce_prog` decides the obligation for the regenerated program.
   * `ufuncResult` models calls without `out=`; with `out=` the same wrap-up runs on a view of the
     output buffer (exercised by a few `out=` templates of the S7 catalogue, not by a theorem).
 -/
